@@ -33,6 +33,7 @@
 from typing import Any, Callable, Union, Iterable, Optional
 from networkx import MultiDiGraph
 from sympy import Symbol, Expr, Function, Dummy, lambdify
+from sympy.core.function import AppliedUndef
 import numpy as np
 
 # meta infos
@@ -1184,6 +1185,11 @@ class ComputeGraph(MultiDiGraph):
             # collect expression and variables of right-hand side of equation
             expr_args, expr = self._node_to_expr(update)
             func_args.extend(expr_args)
+            if isinstance(expr, Expr):
+                # calls of elementary functions on purely numeric arguments (sympy writes E*E as exp(2), 1/E as exp(-1))
+                # are replaced by their values: backend functions such as torch.exp do not accept Python numbers
+                expr = expr.replace(lambda e: isinstance(e, Function) and not isinstance(e, AppliedUndef) and e.args
+                                    and all(a.is_number for a in e.args) and e.evalf().is_Float, lambda e: e.evalf())
             expr_str, expr_args, _, _ = self._expr_to_str(expr, apply=True)
             func_args.extend(expr_args)
             expressions.append(expr_str)
